@@ -32,6 +32,9 @@ let run () =
                          (qstrreplace (nat_of_int (List.length s + 3)) (hb mode) sb t (hb word)))
     | ["cpy"; size; src] -> let s = hb src in let sz = istr size in
         pl (res_str hx (qstrcpy (fuel_for s) (fill sz) (nat_of_int sz) (s @ [N0])))
+    | ["cpyov"; _; size; src] -> let s = hb src in let sz = istr size in     (* overlapping buffers: the string that ends up at dst *)
+        let rec upto0 l = match l with [] -> [] | x :: r -> if x = N0 then [] else x :: upto0 r in
+        pl (res_str (fun o -> hx (upto0 o)) (qstrcpy (fuel_for s) (fill sz) (nat_of_int sz) (s @ [N0])))
     | ["ncpy"; size; src; nb] -> let s = hb src in let sz = istr size in
         pl (res_str hx (qstrncpy (fill sz) (nat_of_int sz) (s @ [N0]) (nat_of_int (istr nb))))
     | ["between"; s; st; en] ->
@@ -64,6 +67,8 @@ let run () =
     | ["spec"; "replt"; src; tok; word] -> pl (hx (replace_tok_spec (hb src) (hb tok) (hb word)))
     | ["spec"; "repls"; src; tok; word] -> pl (hx (replace_str_spec (hb src) (hb tok) (hb word)))
     | ["spec"; "cpy"; size; src] -> pl (hx (strcpy_spec (nat_of_int (istr size)) (hb src)))
+    | ["spec"; "cpyov"; size; src] -> let rec upto0 l = match l with [] -> [] | x :: r -> if x = N0 then [] else x :: upto0 r in
+        pl (hx (upto0 (strcpy_spec (nat_of_int (istr size)) (hb src))))
     | ["spec"; "ncpy"; size; src; nb] -> pl (hx (strncpy_spec (nat_of_int (istr size)) (nat_of_int (istr nb)) (hb src)))
     | ["spec"; "gets"; size; rest] ->
         pl (match gets_spec (nat_of_int (istr size)) (hb rest) with None -> "NULL" | Some (l, n) -> hx l ^ " " ^ string_of_int (int_of_nat n))
